@@ -1472,6 +1472,11 @@ func ParseClientResponse(form Form, status int, h http.Header, body []byte, trai
 						cs.add("resp.trailer-frame.syntax", "trailer line %q has no colon", line)
 						continue
 					}
+					if k != strings.ToLower(k) {
+						// PROTOCOL-WEB: the trailer block uses lower-case field names (HTTP/2 style);
+						// grpc-web's own JavaScript client looks keys up verbatim ("grpc-status")
+						cs.add("resp.trailer-frame.key-not-lower-case", "trailer frame field name %q is not lower-case", k)
+					}
 					th.Add(textproto.CanonicalMIMEHeaderKey(strings.TrimSpace(k)), strings.TrimSpace(v))
 				}
 				e, ok := parseGRPCStatus(th, &cs, "resp.trailer-frame")
